@@ -79,7 +79,20 @@ func (p Params) Body() func() {
 		}
 		var got []int
 		delivered := 0
+		// batches stay what they were when handed out (a consumer may keep them)
+		var kept, keptCopy [][]int
+		checkKept := func() {
+			for i := range kept {
+				for j := range kept[i] {
+					if kept[i][j] != keptCopy[i][j] {
+						hx.Fail("batch-overwritten", "batch #%d was %v when handed out and now reads %v", i, keptCopy[i], kept[i])
+					}
+				}
+			}
+		}
 		check := func(batch []int) {
+			kept = append(kept, batch)
+			keptCopy = append(keptCopy, append([]int(nil), batch...))
 			if len(batch) == 0 {
 				hx.Fail("empty-batch", "an empty batch was delivered")
 			}
@@ -88,12 +101,14 @@ func (p Params) Body() func() {
 			}
 			// an underfilled batch handed out before the source has ended: its oldest item has
 			// waited at least maxWait
-			if len(batch) < p.Size && src.EndedAt < 0 {
-				oldest := src.HandedAt[delivered]
-				if hx.Now()-oldest < maxWait {
-					hx.Fail("underfilled-batch-too-early", "batch %v (batchSize %d) was handed out %v after its oldest item left the source, before maxWait=%v and before the source ended", batch, p.Size, hx.Now()-oldest, maxWait)
+			hx.Atomically(func() {
+				if len(batch) < p.Size && src.EndedAt < 0 {
+					oldest := src.HandedAt[delivered]
+					if hx.Now()-oldest < maxWait {
+						hx.Fail("underfilled-batch-too-early", "batch %v (batchSize %d) was handed out %v after its oldest item left the source, before maxWait=%v and before the source ended", batch, p.Size, hx.Now()-oldest, maxWait)
+					}
 				}
-			}
+			})
 			for _, v := range batch {
 				if delivered >= len(items) || items[delivered] != v {
 					hx.Fail("lost-duplicated-or-reordered", "batches so far %v then %v; the source yields %v", got, batch, items)
@@ -168,6 +183,7 @@ func (p Params) Body() func() {
 			}
 			b.Close()
 		}
+		checkKept()
 		// Close has returned: background work stopped, source closed exactly once
 		hx.Atomically(func() {
 			if src.Closes == 0 {
